@@ -1066,6 +1066,10 @@ func init() {
 		w, _ := in.extra["crashop:"+in.argStr(a[0])].(string)
 		return in.mkString(w), nil
 	})
+	reg(rtPkg+"OnIdle", func(in *Interp, fn *ssa.Function, a []Value) (Value, *iPanic) {
+		in.extra["idlehook"] = a[0]
+		return nil, nil
+	})
 	reg(rtPkg+"Carry", func(in *Interp, fn *ssa.Function, a []Value) (Value, *iPanic) {
 		v := in.conInt(a[1].(*sym.Term), "rt.Carry value")
 		in.extra["carry:"+in.argStr(a[0])] = fmt.Sprintf("%d", v)
